@@ -34,6 +34,11 @@ func (m *K2PModel) Distance(seq1 []uint8, seq2 []uint8, weights []float64) (floa
 	trS, trV, _, _, total := countMutations(seq1, seq2, m.selectedSites, weights)
 	trS, trV = trS/total, trV/total
 
+	// Saturated sequences or no comparable site: the distance is not defined
+	if !(1.-2.*trS-trV >= 0) || !(1.-2.*trV >= 0) {
+		return math.NaN(), nil
+	}
+
 	if m.gamma {
 		dist = m.alpha * (.5*math.Pow(1.-2.*trS-trV, -1./m.alpha) + .25*math.Pow(1.-2.*trV, -1./m.alpha) - .75)
 	} else {
